@@ -15,6 +15,8 @@ def install_all(reg):
     succession_diagram._install_skip2(reg)
     succession_diagram._install_skip3(reg)
     succession_diagram._install_skip4(reg)
+    from . import attractors
+    attractors.install(reg)
     algorithms.install(reg)
     algorithms.install_skipnode(reg)
     algorithms.install_target(reg)
